@@ -57,6 +57,7 @@ def run(tier, seed):
     n = 60 if tier == "quick" else 700
     cases, obs_l, viol, hits, diffs, nontriv = [], [], [], {}, [], set()
     samples = []
+    prior_runs = 0
     with vlib.Scratch() as sc:
         home = sc.env["HOME"]
         for i in range(n):
@@ -74,7 +75,7 @@ def run(tier, seed):
             extra = []
             if i % 4 == 1:
                 extra.append({"p": ".sy-dir-cache.json", "k": "f", "data": b'{"version":2,"dir_entries":{},"file_entries":{}}', "mt_ns": 10**9})
-            if i % 6 == 2:
+            if i % 6 == 2 or "--clean-state" in state:      # --clean-state always meets a state file (7fce564: a dry run deleted it)
                 extra.append({"p": ".sy-state.json", "k": "f", "data": b"garbage not json", "mt_ns": 10**9})
             # symbolic links in the source under each link mode: what the dry run announces for them must be what the real run does
             link_args = []
@@ -105,6 +106,23 @@ def run(tier, seed):
                             if os.path.isfile(dp) and not os.path.islink(dp):
                                 os.setxattr(dp, "user.review", b"pending"); os.setxattr(dp, "user.only_dst", b"2")
             shutil.rmtree(os.path.join(home, ".cache"), ignore_errors=True); os.makedirs(os.path.join(home, ".cache"))
+            # (seed C08-4) the state files of an EARLIER REAL RUN with the same flags: a database, cache or bisync state that exists and is
+            # in use must come out of the dry run byte for byte (and with its time stamp) -- then the source moves on, so that the dry
+            # run has something to plan
+            if i % 3 == 2 and any(x in state for x in ("--checksum-db=true", "--use-cache=true", "--bidirectional")) and not link_args:
+                prior_cli = [x for x in state if not x.startswith("--clear") and x not in ("--clean-state", "--prune-checksum-db")]
+                for root in (A, B):
+                    world.run_sy([root + "/src", root + "/dst"] + prior_cli, sc)
+                    victim = next((e["p"] for e in sspec if e["k"] == "f"), None)
+                    if victim and os.path.isfile(os.path.join(root, "src", victim)):
+                        with open(os.path.join(root, "src", victim), "ab") as fh:
+                            fh.write(b"edited after the earlier run\n")
+                        os.utime(os.path.join(root, "src", victim), ns=(ew.T0NS + 9000 * 10**9,) * 2)
+                    with open(os.path.join(root, "src", "zz_new_after_prior"), "wb") as fh:
+                        fh.write(b"new")
+                    os.utime(os.path.join(root, "src", "zz_new_after_prior"), ns=(ew.T0NS + 9001 * 10**9,) * 2)
+                world.sync_fs()
+                prior_runs += 1
             bs, bd, bh = world.snapshot(A + "/src"), world.snapshot(A + "/dst"), world.snapshot(home)
             ids = ew.Ids()
             state_cli = [s for s in state if s != "--checksum"]
@@ -159,6 +177,7 @@ def run(tier, seed):
                        "A runs with --dry-run, B without; snapshots of source, destination and private HOME before/after A; event multisets of A and B compared; "
                        "non-trivial = the plan contains at least one action" % (STATE_FLAG_SETS,))
     res.cov["samples"] = samples
+    res.cov["worlds_after_an_earlier_real_run_with_the_same_state_flags"] = prior_runs
     res.cov["trusted_base"] = TRUSTED_COMMON + ["sy's cache/database/state locations: <dest>/.sy-* and $XDG_CACHE_HOME/sy (private HOME per run)"]
     for cls, f in known.items():
         h = hits.get(f["id"], [])
